@@ -63,7 +63,7 @@ def main():
     dirs = sorted(str(d) for d in (VERIF / 'refactored').glob("C*-[rstuvw]*") if not sel or any(d.name.startswith(s) for s in sel))
     global BASE
     BASE = counts(dict(os.environ, SA_EVIDENCE_DIR=tempfile.mkdtemp(prefix='ref-ev-')))
-    with ProcessPoolExecutor(8) as ex:
+    with ProcessPoolExecutor(9) as ex:
         res = dict(ex.map(one, dirs))
     n_alarm = 0
     lines = []
